@@ -66,6 +66,13 @@ def gen_cases(tier, seed):
                 for L in b["lengths"]:
                     yield {"kind": "slices", "cls": cls, "rate": rate, "start": st, "L": L, "steps": b["steps"]}
                 yield {"kind": "crops", "cls": cls, "rate": rate, "start": st, "lengths": [x for x in b["lengths"] if x]}
+            if cls == "Signal" and ri < 2:
+                # sample rate given as a single-precision Quantity
+                r32 = ("third_Hz_f32", "3.7GHz_f32")[ri]
+                for st in ("iso", "halfday_minus"):
+                    for L in (5, 9):
+                        yield {"kind": "slices", "cls": cls, "rate": r32, "start": st, "L": L, "steps": b["steps"]}
+                    yield {"kind": "crops", "cls": cls, "rate": r32, "start": st, "lengths": [5, 9]}
             if cls in ("Signal", "DualPolarizationSignal") and (tier != "quick" or ri % 2 == 0):
                 # a start time kept on the TAI scale (MJD format)
                 for L in (2, 9):
